@@ -19,7 +19,7 @@ Next == \/ /\ l = 0 /\ sh = 0
            /\ l' \in {sh + NSh * k : k \in 0..((N - sh) \div NSh)}
            /\ sh' = sh
 
-AllRules == {"C01.Accept", "C01.Reject", "C01.Data",
+AllRules == {"C01.Accept", "C01.Reject", "C01.Data", "C01.BlankReading",
              "C06.NoPanic", "C06.Shape", "C06.CmdNoPanic",
              "C07.NoPanic", "C07.ParEqual", "C07.Orders", "C07.Schedule",
              "C08.Lossless", "C08.Blocks", "C08.NoOp",
@@ -40,6 +40,12 @@ RecMatches(orec, r) ==
     /\ orec.summary = r.summary
     /\ Len(orec.entries) = Len(r.entries)
     /\ \A i \in 1..Len(r.entries) : EntryMatches(orec.entries[i], r.entries[i])
+
+(* the text with every line that holds only blank characters replaced by an empty line *)
+RECURSIVE GlossLines(_)
+GlossLines(ls) == IF ls = <<>> THEN ""
+                  ELSE (IF BlankSpec(Head(ls).text) THEN "" ELSE Head(ls).text) \o Head(ls).eol \o GlossLines(Tail(ls))
+GlossText(ls) == GlossLines(ls)
 
 BlockMatches(ob, b, ls) ==
     /\ ob.first = b.first - 1
@@ -93,6 +99,13 @@ Holds(r, ev, P) ==
       [] r = "C01.Data" -> live /\ P.status = "Conforming" /\ o.ok =>
             /\ Len(o.records) = Len(P.recs)
             /\ \A k \in 1..Len(P.recs) : RecMatches(o.records[k], P.recs[k])
+      (* a line of blank characters other than space/tab is a blank line by the glossary; the text is Unspecified *)
+      (* for acceptance, but if it is accepted the data must be that of the glossary reading                       *)
+      [] r = "C01.BlankReading" -> live /\ o.ok /\ P.status = "Unspecified" /\ ZsOnlyLine(P.lines) =>
+            LET G == ParseDoc(GlossText(P.lines)) IN
+            G.status = "Conforming" =>
+                /\ Len(o.records) = Len(G.recs)
+                /\ \A k \in 1..Len(G.recs) : RecMatches(o.records[k], G.recs[k])
       [] r = "C06.NoPanic" -> ev.panic = "" /\ \A i \in 1..Len(o.errors) : o.errors[i].text_panic = ""
       [] r = "C06.Shape" -> live =>
             /\ o.ok => Len(o.blocks) = Len(o.records) /\ o.errors = <<>>
